@@ -429,7 +429,11 @@ func (m mode) zeroVal(t types.Type) Val {
 }
 
 func tname(t types.Type) string {
+	if b, ok := t.(*types.Basic); ok && b.Kind() < types.UntypedBool {
+		t = types.Typ[b.Kind()] // byte -> uint8, rune -> int32: one heap per type, not per spelling
+	}
 	s := types.TypeString(t, func(p *types.Package) string { return p.Name() })
+	s = strings.ReplaceAll(s, "[]byte", "[]uint8")
 	r := strings.NewReplacer("*", "P", "[", "_", "]", "_", ".", "_", " ", "", "{", "", "}", "", ";", "_", "(", "", ")", "", ",", "_", "/", "_")
 	return r.Replace(s)
 }
